@@ -70,7 +70,13 @@ def proj_selector(sel):
 
 def proj_media(ml):
     # an empty media list denotes (and is serialised as) `all`
-    return [it.value.mediaText for it in ml if hasattr(it.value, 'mediaText')] or ['all']
+    # which node owns a comment next to a media query (the rule or the query) is not observable: comments are left out
+    import re
+    out = []
+    for it in ml:
+        if hasattr(it.value, 'mediaText'):
+            out.append(' '.join(re.sub(r'/\*.*?\*/', ' ', it.value.mediaText, flags=re.S).split()))
+    return out or ['all']
 
 
 def proj_rule(cssutils, r):
